@@ -1061,6 +1061,14 @@ class Lib:
             if len(a) > 1:
                 return a[1]
             I.raise_exc(StopIteration)
+        if isinstance(it, (SSeq, SRange)):
+            # first element of a fresh iterator over a sequence (single next() on iter(seq))
+            ln = self.range_len(I, it) if isinstance(it, SRange) else it.length
+            if I.truth(I.compare(">", ln, 0, n), n):
+                return I.getitem(it, 0, n)
+            if len(a) > 1:
+                return a[1]
+            I.raise_exc(StopIteration)
         raise Unsupported(f"next() on {type(it).__name__}")
 
     def b_iter(self, I, a, k, n):
